@@ -246,3 +246,175 @@ Theorem C02_resolved_nodes_by_value :
                  is_composite_or_variant (t_def t') = true /\ (rank id' <= rank id)%nat.
 Proof. exact resolve_rec_bv. Qed.
 Print Assumptions C02_resolved_nodes_by_value.
+
+(** ** indirection clause from a DECIDABLE condition on the registry
+    (Model/SizedReg.v, Proofs/RankGraph.v, Proofs/SizedRegProofs.v; instances in
+    Proofs/ExamplesSizedReg.v).
+
+    [reg_bv_edge r s pa pb]: the FIRST item-eligible entry with path [pa] ([first_eligible]: struct /
+    enum entry, not substituted, non-empty namespace - the entry the generation loop builds the
+    item of [pa] from) has a field [f] with [is_boxed_gen f = false] whose type reaches, by value,
+    a struct / enum entry that is printed as the item path [pb] ([bv_targets]: follows the
+    resolver; tuples, arrays, compact wrappers, the look-through of [Cow] and the arguments of
+    [Option] / [Result] / [Range] / [RangeInclusive] - also when a pass-through substitute prints
+    one of these four - are traversed; sequences, bit sequences, the arguments of every other
+    struct / enum entry (heap prelude collections, other substitutes, generated items) and the
+    type ids the resolver prints as a generic parameter [_i] of the enclosing item cut).
+    [by_value_acyclicb r s]: the longest-path table computed by [length] rounds over the rows of
+    that graph is a strictly decreasing rank ([bv_rank_of r s : list string -> nat], on paths).
+
+    Relation to [C02_sized_partial]: that theorem takes a rank on ids as a hypothesis whose last
+    clause asks ALL struct / enum entries with one path to have one rank; it is not satisfiable
+    on a registry with  A { x: Option<B> }, B { y: Option<u8> }  (two [Option] entries in a chain,
+    [sz_chain_not_ranked]).  The statements below do not go through [bv_ranked]: the rank lives
+    on item paths, so "same path, same rank" holds by construction and no hypothesis beyond
+    [root_fresh] and the boolean is needed ([skeleton_consistent] is not needed either).
+
+    Scope, as for [C02_sized_partial]: generic parameters are opaque.  [item_edge] does not look
+    into the arguments of a generated generic item, so a cycle that exists only after
+    instantiation ([Holder<T> { v: T }], [B { a: Holder<B> }]) is neither an [item_edge] cycle
+    nor a [reg_bv_edge] cycle; the run-time checker [sizedb] does follow exposed generic
+    arguments ([sz_instantiation_gap]). *)
+From V Require Import Model.SizedReg Proofs.RankGraph Proofs.SizedRegProofs.
+
+(** on a registry that generates, the by-value graph of the generated items IS the by-value graph
+    of the registry *)
+Theorem C02_item_edges_exact :
+  forall r s, root_fresh s -> forall teq m, generate r s teq = Ok m ->
+  forall pa pb, item_edge s m pa pb <-> reg_bv_edge r s pa pb.
+Proof. exact item_edges_exact. Qed.
+Print Assumptions C02_item_edges_exact.
+
+(** the boolean decides acyclicity of the registry's by-value graph (both directions) *)
+Theorem C02_by_value_acyclicb_iff :
+  forall r s, by_value_acyclicb r s = true <-> (forall n p, ~ walk (reg_bv_edge r s) n p p).
+Proof. exact by_value_acyclicb_iff. Qed.
+Print Assumptions C02_by_value_acyclicb_iff.
+
+(** when it holds, the computed rank strictly decreases along every registry edge .. *)
+Theorem C02_by_value_rank :
+  forall r s, by_value_acyclicb r s = true ->
+  forall pa pb, reg_bv_edge r s pa pb -> (bv_rank_of r s pb < bv_rank_of r s pa)%nat.
+Proof. exact by_value_acyclicb_rank. Qed.
+Print Assumptions C02_by_value_rank.
+
+(** .. hence along every by-value edge between generated items .. *)
+Theorem C02_sized_rank :
+  forall r s, root_fresh s -> by_value_acyclicb r s = true ->
+  forall teq m, generate r s teq = Ok m ->
+  forall pa pb, item_edge s m pa pb -> (bv_rank_of r s pb < bv_rank_of r s pa)%nat.
+Proof. exact sized_rank_pinned. Qed.
+Print Assumptions C02_sized_rank.
+
+(** .. and no by-value walk between generated items returns to its start: every cycle between
+    generated types passes through a field the generator boxes, a [Vec], a heap collection or a
+    generic parameter *)
+Theorem C02_sized :
+  forall r s, root_fresh s -> by_value_acyclicb r s = true ->
+  forall teq m, generate r s teq = Ok m ->
+  forall n p, ~ walk (item_edge s m) n p p.
+Proof. exact sized_pinned. Qed.
+Print Assumptions C02_sized.
+
+(** the condition is also necessary: on a registry that generates, the boolean holds EXACTLY when
+    the generated items have no by-value cycle (so a registry on which it fails and generation
+    succeeds makes the generator emit an infinitely sized type) *)
+Theorem C02_sized_iff :
+  forall r s, root_fresh s -> forall teq m, generate r s teq = Ok m ->
+  (by_value_acyclicb r s = true <-> forall n p, ~ walk (item_edge s m) n p p).
+Proof. exact sized_iff_pinned. Qed.
+Print Assumptions C02_sized_iff.
+
+(** .. and when the boolean fails, a by-value walk between generated items that returns to its
+    start exists (constructively: the failing rank check yields it) *)
+Theorem C02_unsized_witness :
+  forall r s, root_fresh s -> forall teq m, generate r s teq = Ok m ->
+  by_value_acyclicb r s = false -> exists n p, walk (item_edge s m) n p p.
+Proof. exact unsized_witness_pinned. Qed.
+Print Assumptions C02_unsized_witness.
+
+(** [C02_sized] covers every case of [C02_sized_partial]: a registry that generates and has a rank
+    in the sense of [bv_ranked] satisfies the boolean *)
+Theorem C02_sized_covers_partial :
+  forall r s rank, root_fresh s -> bv_ranked r s rank ->
+  forall teq m, generate r s teq = Ok m -> by_value_acyclicb r s = true.
+Proof. exact ranked_implies_boolean. Qed.
+Print Assumptions C02_sized_covers_partial.
+
+(** from decidable conditions only ([wf_regb r], [supportedb r s]: the run-time hypothesis of
+    [C10_total_wf]; [Shape.root_freshb s]: the boolean for [root_fresh]): generation with the model's
+    own [types_equal] reports a duplicate path, or it yields a module whose items are free of
+    by-value cycles exactly when the boolean holds *)
+Theorem C02_sized_wf :
+  forall r s, wf_regb r = true -> supportedb r s = true -> Shape.root_freshb s = true ->
+  (exists p, generate r s (types_equal r) = Err (EDuplicatePath p)) \/
+  (exists m, generate r s (types_equal r) = Ok m /\
+             (by_value_acyclicb r s = true <-> forall n p, ~ walk (item_edge s m) n p p)).
+Proof. exact sized_wf. Qed.
+Print Assumptions C02_sized_wf.
+
+(** ** the run-time checker [sizedb] (Checkers/Sem.v) is sound for its own by-value successor
+    function (Proofs/SizedbSound.v): on EVERY parsed module, the verdict [true] of the depth-first
+    search means that no walk along [byval_succ] (with the exposure table the checker computes)
+    returns to its start.  A statement about the checker, not about the generator. *)
+From V Require Import Proofs.SizedbSound.
+Theorem C02_sizedb_sound :
+  forall root alloc compact cut_heap m,
+  sizedb root alloc compact cut_heap m = true ->
+  forall n p,
+    ~ walk (fun a b => In b (byval_succ root alloc compact cut_heap m
+                                        (exposure root alloc compact cut_heap m) a)) n p p.
+Proof. exact sizedb_sound. Qed.
+Print Assumptions C02_sizedb_sound.
+
+(** ** the run-time checker and the model (Proofs/SizedbItems.v, Proofs/SizedbEmitted.v).
+    Every by-value edge between generated items is an edge of the graph [sizedb] explores on the
+    tree [pmod_of_items s m], whatever the exposure table: so when the checker accepts that tree
+    the items have no by-value cycle.  [ir_closed] / [items_plain]: as in [C02_closedb_of_ir];
+    [compact_seen root alloc compact c]: the wrapper path [c] of a nested [Compact<..>] is a plain
+    path whose names are the compact head the checker is told, is not one of the heap heads under
+    the alloc crate and does not start with the root ident. *)
+From V Require Import Proofs.SizedbItems Proofs.SizedbEmitted.
+Theorem C02_sizedb_items_acyclic :
+  forall s m alloc compact cut_heap,
+  ir_closed s m -> items_plain s m = true -> s_root s <> ":"%string ->
+  (forall p id ir, In (p, (id, ir)) m ->
+   forall f, In f (kind_fields (ti_kind ir)) ->
+   forall i c, In (TCompact i false c) (subpaths (fi_path f)) ->
+   compact_seen (s_root s) alloc compact c) ->
+  sizedb (s_root s) alloc compact cut_heap (pmod_of_items s m) = true ->
+  forall n p, ~ walk (item_edge s m) n p p.
+Proof. exact sizedb_items_acyclic. Qed.
+Print Assumptions C02_sizedb_items_acyclic.
+
+(** the whole chain, under the hypotheses of [C02_closedb_emitted] plus [compact_wrapper_seen s]
+    (the configured compact wrapper path is [compact_seen] with the arguments the harness passes:
+    [sized_alloc s] = names of the alloc path, [sized_compact s] = names of the compact path): when
+    the checker accepts the parse of the emitted tokens, the generated items have no by-value
+    cycle and the registry condition holds.  The converse fails: [sz_instantiation_gap]. *)
+Theorem C02_sizedb_emitted_acyclic :
+  forall r s teq m toks,
+  root_fresh s -> starts_with "_" (s_root s) = false -> wrappers_fresh s ->
+  Shape.skeleton_consistent r s ->
+  generate r s teq = Ok m -> emit_module s m = Ok toks -> items_plain s m = true ->
+  keys_prefix_free m -> compact_wrapper_seen s ->
+  exists pm, parse_module toks = Some pm /\
+    (sizedb (s_root s) (sized_alloc s) (sized_compact s) true pm = true ->
+     (forall n p, ~ walk (item_edge s m) n p p) /\ by_value_acyclicb r s = true).
+Proof. exact sizedb_emitted_acyclic. Qed.
+Print Assumptions C02_sizedb_emitted_acyclic.
+
+(** ** DESIGN 3.1 clause 9 ("sized") as a boolean (Model/SizedMono.v, Proofs/SizedMonoProofs.v):
+    [mono_edge r s a b] is the MONOMORPHIC by-value graph on registry ids (the fields of an
+    item-eligible entry that the generator does not box; the by-value parameters of [Option] /
+    [Result] / [Range] / [RangeInclusive] / [Cow] entries; tuple, array, compact components; generic
+    parameters are NOT cut).  [mono_acyclicb] decides its acyclicity.  Decision theorem only: no
+    statement here relates it to the generated code (it is the condition under which no cycle
+    exists between INSTANTIATED generated types; that needs the instantiation semantics of
+    generated generic items).  On the example registries it agrees with [sizedb], also on the one
+    with a cycle only after instantiation ([sz_mono_agrees]). *)
+From V Require Import Model.SizedMono Proofs.SizedMonoProofs.
+Theorem C02_mono_acyclicb_iff :
+  forall r s, mono_acyclicb r s = true <-> (forall n a, ~ walk (mono_edge r s) n a a).
+Proof. exact mono_acyclicb_iff. Qed.
+Print Assumptions C02_mono_acyclicb_iff.
